@@ -60,25 +60,19 @@ theorem fault_restores_coh_newAddr (env : Env) (nA nB nC : Nat) (stk : Bool) (j 
   have := newAddr_fault_coh env nA nB nC stk j P V hc.1 h
   exact ⟨this.1, this.2.1, bestInv_of_led P V _ this.2.2.1 hc.2⟩
 
-/-- RemoveWallet (marking), removal step 1, a fast-forward step of Start: exact -/
+/-- RemoveWallet (marking): exact -/
 theorem fault_restores_coh_removeMark (env : Env) (n : Nat) (w : Wid) (j : Nat) (P : PStore) (V : PVol)
     (hc : Coh env P V) (h : ((opRemoveMark n w).run (some j) P V).ok = false) :
     ((opRemoveMark n w).run (some j) P V).P = P ∧ Coh env P ((opRemoveMark n w).run (some j) P V).V := by
   have := removeMark_fail_exact n w (some j) P V h
   exact ⟨this.1, by rw [this.2]; exact hc⟩
 
-theorem fault_restores_coh_remove1 (env : Env) (n : Nat) (w : Wid) (j : Nat) (P : PStore) (V : PVol)
-    (hc : Coh env P V) (h : ((opRemove1 n w).run (some j) P V).ok = false) :
-    ((opRemove1 n w).run (some j) P V).P = P ∧ Coh env P ((opRemove1 n w).run (some j) P V).V := by
-  have := remove1_fail_exact n w (some j) P V h
-  exact ⟨this.1, by rw [this.2]; exact hc⟩
-
-/-- final removal step: DeleteKeystore drops the cache entry inside the transaction; after the failed
+/-- the final removal transaction (wallet indexes, status, keystore): DeleteKeystore drops the cache entry inside the transaction; after the failed
     commit UpdateManagedKeystores reloads it from the store -/
-theorem fault_restores_coh_removeFinal (env : Env) (nA nB : Nat) (w : Wid) (j : Nat) (P : PStore) (V : PVol)
-    (hc : Coh env P V) (h : ((opRemoveFinal nA nB w).run (some j) P V).ok = false) :
-    ((opRemoveFinal nA nB w).run (some j) P V).P = P ∧ Coh env P ((opRemoveFinal nA nB w).run (some j) P V).V := by
-  have := removeFinal_fault_coh env nA nB w j P V hc.1 h
+theorem fault_restores_coh_removeFinal (env : Env) (nI nA nB : Nat) (w : Wid) (j : Nat) (P : PStore) (V : PVol)
+    (hc : Coh env P V) (h : ((opRemoveFinal nI nA nB w).run (some j) P V).ok = false) :
+    ((opRemoveFinal nI nA nB w).run (some j) P V).P = P ∧ Coh env P ((opRemoveFinal nI nA nB w).run (some j) P V).V := by
+  have := removeFinal_fault_coh env nI nA nB w j P V hc.1 h
   exact ⟨this.1, this.2.1, bestInv_of_led P V _ this.2.2 hc.2⟩
 
 -- ------------------------------------------------------------------ every repetition of the fault
@@ -96,10 +90,10 @@ theorem faults_restore_coh_newAddr (env : Env) (nA nB nC : Nat) (stk : Bool) (P 
     Coh env P (attempts (opNewAddr env nA nB nC stk) js P V) :=
   faults_restore_coh env _ P (fun j V hc h => (fault_restores_coh_newAddr env nA nB nC stk j P V hc h).2) js V hc hf
 
-theorem faults_restore_coh_removeFinal (env : Env) (nA nB : Nat) (w : Wid) (P : PStore)
-    (js : List Nat) (V : PVol) (hc : Coh env P V) (hf : allFail (opRemoveFinal nA nB w) js P V = true) :
-    Coh env P (attempts (opRemoveFinal nA nB w) js P V) :=
-  faults_restore_coh env _ P (fun j V hc h => (fault_restores_coh_removeFinal env nA nB w j P V hc h).2) js V hc hf
+theorem faults_restore_coh_removeFinal (env : Env) (nI nA nB : Nat) (w : Wid) (P : PStore)
+    (js : List Nat) (V : PVol) (hc : Coh env P V) (hf : allFail (opRemoveFinal nI nA nB w) js P V = true) :
+    Coh env P (attempts (opRemoveFinal nI nA nB w) js P V) :=
+  faults_restore_coh env _ P (fun j V hc h => (fault_restores_coh_removeFinal env nI nA nB w j P V hc h).2) js V hc hf
 
 -- ------------------------------------------------------------------ retry_equiv
 
